@@ -114,7 +114,13 @@ pub fn gen(out: &mut dyn Write, family: &str, thorough: bool, seed: u64) {
                 }
             }
         }
+        // the library accepts the dictionary in any order (only the `train` tool sorts it): every other case is not sorted
         dict.sort();
+        if i % 2 == 1 && dict.len() >= 2 {
+            dict.reverse();
+            let k = r.below(dict.len());
+            dict.swap(0, k);
+        }
         // tag dictionary: some corpus tokens and some dictionary-only tokens, with tags
         let mut tagdict: Vec<String> = vec![];
         if family == "C12" || r.chance(1, 3) {
